@@ -1,7 +1,8 @@
 #!/bin/bash
 # run every thorough check once, record wall time and summary (sizing run)
 cd "$(dirname "$0")/.."
-for p in C16 C14 C18 C19 C04 C11 C15 C08 C03 C10 C07 C20 C05 C06 C02 C09 C01; do
+LIST="${@:-C16 C14 C18 C19 C04 C11 C15 C08 C03 C10 C07 C20 C05 C06 C02 C09 C01}"
+for p in $LIST; do
   s=$(date +%s)
   timeout 7200 ./check $p --tier thorough > thorough_$p.log 2>&1; rc=$?
   e=$(date +%s)
